@@ -31,10 +31,11 @@ const (
 	LatNone = iota
 	LatUniform
 	LatBimodal
+	LatHeavy // mostly 1-5 ms, one call in eight a straggler of 100 ms, 1 s, 10 s or 100 s
 	NumLat
 )
 
-const maxTasks = 512
+const maxTasks = 2048
 
 // MaxTasks bounds the number of tasks of one run (top-level tasks plus
 // goroutines started by the code under test).
@@ -73,10 +74,12 @@ type Task struct {
 	// the baton), stArrived (back from it, waiting for the baton).
 	state     int32
 	keptBaton bool
-	selRot    int     // rotation of the case order of the select being polled
-	blockedAt string  // label of the blocking operation the task is in (or was last in)
-	condKey   uintptr // the sync.Cond the task waits on (stCondWait)
-	condSeq   uint64  // arrival order among the waiters (Signal wakes the earliest)
+	selRot    int           // rotation of the case order of the select being polled
+	blockedAt string        // label of the blocking operation the task is in (or was last in)
+	condKey   uintptr       // the sync.Cond the task waits on (stCondWait)
+	condSeq   uint64        // arrival order among the waiters (Signal wakes the earliest)
+	timer     bool          // a virtual timer of the code under test (SpawnTimer)
+	fin       chan struct{} // closed when a top-level task has ended (visible synchronisation, see JoinCallers)
 }
 
 const (
@@ -84,6 +87,7 @@ const (
 	stLimbo
 	stArrived
 	stCondWait // waiting on a simulated sync.Cond (parked by the kernel, not by the runtime)
+	stKept     // inside a possibly blocking operation WITH the baton: nobody else could run at the current virtual time
 )
 
 // Switch is one recorded context switch.
@@ -155,10 +159,19 @@ type Sched struct {
 
 	pctPts [8]int
 	cand   [maxTasks]int
+	limbo  [maxTasks]int
 
 	active  bool
 	wg      sync.WaitGroup
 	Spawned int // goroutines started by the code under test and run as tasks
+
+	noJump     bool          // runnable() must not advance the clock (see BlockBegin)
+	poke       chan struct{} // tells Run's goroutine that a task kept the baton while others sleep
+	KeptWakes  int           // the clock was advanced because the baton holder turned out to be blocked
+	liveTimers int           // live tasks that are virtual timers
+	Timers     int           // virtual timers started by the code under test
+	Sleeps     int           // virtual sleeps of the code under test
+	base       int64
 }
 
 // Current is the scheduler of the run in progress (nil outside the concurrent
@@ -224,6 +237,44 @@ func NewSched(tape *Tape, cfg Config) *Sched {
 //go:norace
 func (s *Sched) Now() int64 { return s.now }
 
+// clockBase is the virtual time at which the scheduler of the phase in
+// progress started: virtual time keeps growing across the phases of one run
+// (references, preludes, the run proper) and is reset when a run starts.
+var clockBase int64
+
+// ResetClock sets the virtual clock back to zero (start of a run).
+//
+//go:norace
+func ResetClock() { clockBase, timersStarted = 0, 0 }
+
+var timersStarted int
+
+// TimersStarted is the number of virtual timers (timers, tickers, context
+// deadlines) the code under test has started since ResetClock.
+//
+//go:norace
+func TimersStarted() int { return timersStarted }
+
+// AdvanceClock moves the virtual clock forward between two phases.
+//
+//go:norace
+func AdvanceClock(us int64) {
+	if us > 0 {
+		clockBase += us
+	}
+}
+
+// VirtualNow is the virtual time in microseconds since the start of the run,
+// whether or not a simulated phase is in progress.
+//
+//go:norace
+func VirtualNow() int64 {
+	if s := Current; s != nil {
+		return s.base + s.now
+	}
+	return clockBase
+}
+
 // Stamp returns the next global event sequence number.
 //
 //go:norace
@@ -287,6 +338,11 @@ func (s *Sched) latency() int64 {
 	case LatBimodal:
 		if s.tape.Bool(1, 10) {
 			return 1000 * 1000
+		}
+		return int64(1+s.tape.Choose(5)) * 1000
+	case LatHeavy:
+		if s.tape.Bool(1, 8) {
+			return [...]int64{100e3, 1e6, 10e6, 100e6}[s.tape.Choose(4)]
 		}
 		return int64(1+s.tape.Choose(5)) * 1000
 	}
@@ -359,7 +415,7 @@ func (s *Sched) runnable(t *Task) int {
 				min = u.wakeAt
 			}
 		}
-		if min < 0 {
+		if min < 0 || s.noJump {
 			return 0
 		}
 		s.now = min
@@ -376,20 +432,29 @@ func (s *Sched) runnable(t *Task) int {
 //go:norace
 func (s *Sched) settle() {
 	for spin := 0; ; spin++ {
-		pending := false
-		var dump []byte
+		// Which tasks are inside a possibly blocking operation? Read before
+		// the dump is taken: a task that has come back since then is parked
+		// waiting for the baton and shows as blocked too.
+		k := 0
 		for i := 0; i < s.n; i++ {
 			u := s.tasks[i]
 			if u.done || u == s.self || atomic.LoadInt32(&u.state) != stLimbo {
 				continue
 			}
-			if dump == nil {
-				if s.stackBuf == nil {
-					s.stackBuf = make([]byte, 1<<20)
-				}
-				dump = s.stackBuf[:runtime.Stack(s.stackBuf, true)]
-			}
-			if !goroutineBlocked(dump, u.goid) && atomic.LoadInt32(&u.state) == stLimbo {
+			s.limbo[k] = i
+			k++
+		}
+		if k == 0 {
+			return
+		}
+		// One dump decides for all of them: if every one is parked at that
+		// instant, nobody is on its way to wake another (the caller holds the
+		// baton and every other task is parked by the kernel), so the states
+		// read after this point are stable.
+		dump := settleBuf[:runtime.Stack(settleBuf, true)]
+		pending := false
+		for j := 0; j < k && !pending; j++ {
+			if !goroutineBlocked(dump, s.tasks[s.limbo[j]].goid) {
 				pending = true
 			}
 		}
@@ -402,6 +467,13 @@ func (s *Sched) settle() {
 		runtime.Gosched()
 	}
 }
+
+// Buffers for goroutine dumps: settleBuf is used by the task that holds the
+// baton, watchBuf by Run's goroutine; one scheduler is active at a time.
+var (
+	settleBuf = make([]byte, 8<<20)
+	watchBuf  = make([]byte, 8<<20)
+)
 
 // goroutineBlocked reports whether goroutine id is parked in the runtime
 // (any wait reason) according to a full stack dump.
@@ -575,7 +647,27 @@ func (s *Sched) pollRace(t *Task, label string) {
 // Yield is called by the running task at every yield point.
 //
 //go:norace
-func (s *Sched) Yield(kind int, label string, inOp bool) {
+func (s *Sched) Yield(kind int, label string, inOp bool) { s.yield(kind, label, inOp, -1) }
+
+// Sleep is a yield after which the task is not runnable before delay
+// microseconds of virtual time have passed (time.Sleep of the code under
+// test). It reports false outside a simulated phase.
+//
+//go:norace
+func (s *Sched) Sleep(us int64, label string) bool {
+	if !s.active {
+		return false
+	}
+	if us < 0 {
+		us = 0
+	}
+	s.Sleeps++
+	s.yield(KindOp, label, true, us)
+	return true
+}
+
+//go:norace
+func (s *Sched) yield(kind int, label string, inOp bool, delay int64) {
 	if !s.active {
 		return
 	}
@@ -608,6 +700,9 @@ func (s *Sched) Yield(kind int, label string, inOp bool) {
 		s.issue++
 		t.ioIssue = s.issue
 		t.wakeAt = s.now + s.latency()
+	}
+	if delay >= 0 {
+		t.wakeAt = s.now + delay
 	}
 	next := s.pick(t, kind, label)
 	if next != t {
@@ -778,10 +873,25 @@ func (s *Sched) BlockBegin(label string) {
 	}
 	t.blockedAt = label
 	atomic.StoreInt32(&t.state, stLimbo)
+	// Virtual time advances only when every task is asleep or blocked. This
+	// task is neither yet: the operation it is about to perform may complete
+	// at once, or wake another task. So the clock is not moved here.
 	s.self = t
+	s.noJump = true
 	next := s.pick(nil, KindOp, label)
+	s.noJump = false
 	s.self = nil
-	if next == nil {
+	if next == nil && s.hasSleepers() {
+		// Nobody can run at the current virtual time, but some task sleeps
+		// (an I/O completion, a timer). Keep the baton and perform the
+		// operation; if it turns out to block, Run's goroutine notices,
+		// advances the clock and hands the baton to whoever wakes first.
+		atomic.StoreInt32(&t.state, stKept)
+		select {
+		case s.poke <- struct{}{}:
+		default:
+		}
+	} else if next == nil {
 		// nobody else can run: keep the baton and perform the operation
 		atomic.StoreInt32(&t.state, stRunnable)
 		t.keptBaton = true
@@ -817,7 +927,12 @@ func (s *Sched) BlockEnd() {
 		s.Foreign = true
 		return
 	}
-	if t.keptBaton {
+	if atomic.LoadInt32(&t.state) == stKept {
+		if atomic.CompareAndSwapInt32(&t.state, stKept, stRunnable) {
+			return // came back with the baton
+		}
+		// Run's goroutine found the task blocked and gave the baton away
+	} else if t.keptBaton {
 		t.keptBaton = false
 		return
 	}
@@ -825,6 +940,56 @@ func (s *Sched) BlockEnd() {
 	atomic.StoreInt32(&t.state, stArrived)
 	<-t.wake
 	raceEnable()
+}
+
+// hasSleepers reports whether some task is waiting for a later virtual time.
+//
+//go:norace
+func (s *Sched) hasSleepers() bool {
+	for i := 0; i < s.n; i++ {
+		u := s.tasks[i]
+		if !u.done && atomic.LoadInt32(&u.state) == stRunnable && u.wakeAt > s.now && u != s.tasks[s.cur] {
+			return true
+		}
+	}
+	return false
+}
+
+// watchKept runs on Run's goroutine after a task kept the baton for a
+// possibly blocking operation while other tasks sleep. If the task is really
+// blocked, virtual time may advance: the baton goes to whoever wakes first.
+//
+//go:norace
+func (s *Sched) watchKept() {
+	t := s.tasks[s.cur]
+	if t == nil {
+		return
+	}
+	buf := watchBuf
+	for spin := 0; spin < 2000000; spin++ {
+		if atomic.LoadInt32(&t.state) != stKept {
+			return // the operation completed
+		}
+		dump := buf[:runtime.Stack(buf, true)]
+		if goroutineBlocked(dump, t.goid) {
+			if !atomic.CompareAndSwapInt32(&t.state, stKept, stLimbo) {
+				return
+			}
+			raceDisable()
+			s.KeptWakes++
+			next := s.pick(nil, KindOp, "clock")
+			if next != nil {
+				s.cur = next.ID
+				atomic.StoreInt32(&next.state, stRunnable)
+				next.wake <- struct{}{}
+			} else {
+				atomic.StoreInt32(&s.allBlocked, 1)
+			}
+			raceEnable()
+			return
+		}
+		runtime.Gosched()
+	}
 }
 
 //go:norace
@@ -841,6 +1006,9 @@ func (s *Sched) finish(t *Task) {
 	t.done = true
 	t.ioIssue = 0
 	s.live--
+	if t.timer {
+		s.liveTimers--
+	}
 	if s.live > 0 {
 		next := s.pick(nil, KindOp, "end")
 		if next != nil {
@@ -872,6 +1040,7 @@ func (s *Sched) taskMain(t *Task, fn func(*Task), wg *sync.WaitGroup) {
 		fn(t)
 	}()
 	s.finish(t)
+	close(t.fin)
 }
 
 //go:norace
@@ -908,11 +1077,13 @@ func (s *Sched) Run(fns []func(*Task)) bool {
 		panic("too many tasks")
 	}
 	wg := &s.wg
+	s.base = clockBase
 	s.giveUp = make(chan struct{})
+	s.poke = make(chan struct{}, 1)
 	s.n = len(fns)
 	s.live = len(fns)
 	for i := range fns {
-		s.tasks[i] = &Task{ID: i, wake: make(chan struct{}, 1)}
+		s.tasks[i] = &Task{ID: i, wake: make(chan struct{}, 1), fin: make(chan struct{})}
 	}
 	setCurrent(s)
 	for i, fn := range fns {
@@ -937,9 +1108,12 @@ func (s *Sched) Run(fns []func(*Task)) bool {
 		case <-done:
 			s.active = false
 			setCurrent(nil)
+			AdvanceClock(s.now)
 			return true
 		case <-s.giveUp:
 			return false
+		case <-s.poke:
+			s.watchKept()
 		case <-timer.C:
 			return false
 		case <-tick.C:
@@ -972,6 +1146,10 @@ const (
 //go:norace
 func (s *Sched) watch() int {
 	if atomic.LoadInt32(&s.allBlocked) == 0 {
+		if t := s.tasks[s.cur]; t != nil && atomic.LoadInt32(&t.state) == stKept {
+			s.watchKept() // a missed poke
+			return watchMoving
+		}
 		if s.keptAndBlocked() {
 			return watchBlocked
 		}
@@ -979,7 +1157,7 @@ func (s *Sched) watch() int {
 	}
 	// nobody holds the baton: has a blocked task come back (woken from
 	// outside the simulator)? Then scheduling resumes with it.
-	buf := make([]byte, 1<<20)
+	buf := watchBuf
 	dump := buf[:runtime.Stack(buf, true)]
 	moving := false
 	for i := 0; i < s.n; i++ {
@@ -1012,10 +1190,84 @@ func (s *Sched) watch() int {
 	return watchBlocked
 }
 
+// CallersDone reports, after a run that ended in a deadlock, whether the
+// first n tasks (the callers) have all ended: what is still blocked then are
+// goroutines the code under test started and left behind.
+//
+//go:norace
+func (s *Sched) CallersDone(n int) bool {
+	for i := 0; i < n && i < s.n; i++ {
+		if !s.tasks[i].done {
+			return false
+		}
+	}
+	return true
+}
+
+// JoinCallers waits for the first n tasks, which have ended, through visible
+// synchronisation, so that what they wrote may be read; the scheduler is then
+// retired although some goroutines of the code under test never ended.
+func (s *Sched) JoinCallers(n int) {
+	for i := 0; i < n && i < s.n; i++ {
+		<-s.tasks[i].fin
+	}
+	s.retire()
+}
+
+//go:norace
+func (s *Sched) retire() {
+	s.active = false
+	setCurrent(nil)
+	AdvanceClock(s.now)
+}
+
 // LiveTasks returns how many tasks have not ended yet.
 //
 //go:norace
-func (s *Sched) LiveTasks() int { return s.live }
+func (s *Sched) LiveTasks() int { return s.live - s.liveTimers }
+
+// SpawnTimer is Spawn for a virtual timer of the code under test: the new
+// task becomes runnable when us microseconds of virtual time have passed. Like
+// any goroutine it is created by a visible go statement of its creator (what
+// happened before the timer was set happens-before what runs when it fires,
+// as in production).
+//
+//go:norace
+func (s *Sched) SpawnTimer(us int64) int {
+	h := s.Spawn()
+	if h < 0 {
+		return h
+	}
+	if us < 0 {
+		us = 0
+	}
+	c := s.tasks[h]
+	c.timer = true
+	c.wakeAt = s.now + us
+	s.liveTimers++
+	s.Timers++
+	timersStarted++
+	return h
+}
+
+// Hasten makes a sleeping timer task runnable now (its timer was stopped: it
+// only has to end).
+//
+//go:norace
+func (s *Sched) Hasten(h int) {
+	if !s.active || h < 0 || h >= s.n {
+		return
+	}
+	if c := s.tasks[h]; !c.done && c.wakeAt > s.now {
+		c.wakeAt = s.now
+	}
+}
+
+// OnlyTimersLive reports whether every live task is a virtual timer (a
+// ticker then has nobody left to tick for).
+//
+//go:norace
+func (s *Sched) OnlyTimersLive() bool { return s.live == s.liveTimers }
 
 // SetNote / Note are two integer slots per task for the workload's own
 // bookkeeping that must stay readable after a run that did not join (a
@@ -1046,7 +1298,7 @@ func (s *Sched) BlockedTasks() (ids []int, labels []string) {
 		if u.done {
 			continue
 		}
-		if st := atomic.LoadInt32(&u.state); st == stLimbo || st == stCondWait || u.keptBaton {
+		if st := atomic.LoadInt32(&u.state); st == stLimbo || st == stCondWait || st == stKept || u.keptBaton {
 			ids = append(ids, u.ID)
 			labels = append(labels, u.blockedAt)
 		}
@@ -1057,10 +1309,10 @@ func (s *Sched) BlockedTasks() (ids []int, labels []string) {
 //go:norace
 func (s *Sched) keptAndBlocked() bool {
 	t := s.tasks[s.cur]
-	if t == nil || !t.keptBaton {
+	if t == nil || !(t.keptBaton || atomic.LoadInt32(&t.state) == stKept) {
 		return false
 	}
-	buf := make([]byte, 1<<20)
+	buf := watchBuf
 	dump := buf[:runtime.Stack(buf, true)]
 	return goroutineBlocked(dump, t.goid)
 }
